@@ -321,6 +321,10 @@ func ruleSeqhash(c *Ctx, prop string) {
 			continue
 		}
 		mt := mine[0]
+		if mt.conditional {
+			c.undecided("GUARD", key, mt.site.Pos(), "the membership test sits in a helper that decides by itself when it runs; which alphabet applies to "+typ+" is not read")
+			continue
+		}
 		st := holds
 		why := ""
 		if mt.over != x {
@@ -391,7 +395,7 @@ func ruleSeqhash(c *Ctx, prop string) {
 		stD = broken
 		for _, r := range raw {
 			casePreserving := map[string]bool{"poly/transform.ReverseComplement": true, "poly/transform.Complement": true, "poly/transform.Reverse": true, "poly/seqhash.RotateSequence": true}
-			if strings.HasPrefix(r, "poly/") && !casePreserving[r] { // handed to another helper of the module: not followed
+			if strings.HasPrefix(strings.TrimLeft(r, "(*"), "poly/") && !casePreserving[r] { // handed to another helper (function or method) of the module: not followed
 				stD = unknown
 			}
 			if r == "strings.Map" || r == "strings.ToUpperSpecial" || r == "strings.ToTitle" || r == "bytes.ToUpper" || strings.HasPrefix(r, "(*strings.Replacer)") || strings.HasPrefix(r, "(golang.org/x/text") {
@@ -447,6 +451,8 @@ type memberTest struct {
 	overV  ssa.Value
 	alpha  string
 	over   string
+	// the test sits in a helper that holds several tests or reaches it under a condition of its own
+	conditional bool
 }
 
 // membershipTests finds, in Hash and the same-package helpers it calls, loops that test every rune
@@ -454,7 +460,13 @@ type memberTest struct {
 // IndexByte). For a helper, S and A are mapped back to the call site's arguments.
 func membershipTests(h *ssa.Function) []memberTest {
 	var out []memberTest
-	scan := func(f *ssa.Function) (alpha, over ssa.Value, site ssa.Instruction) {
+	type found struct {
+		alpha, over ssa.Value
+		site        ssa.Instruction
+		rng         *ssa.Range
+	}
+	scan := func(f *ssa.Function) []found {
+		var fs []found
 		eachInstr(f, func(i ssa.Instruction) {
 			cl, ok := i.(*ssa.Call)
 			if !ok {
@@ -485,46 +497,49 @@ func membershipTests(h *ssa.Function) []memberTest {
 			if !ok {
 				return
 			}
-			alpha, over, site = a, rg.X, cl
+			fs = append(fs, found{a, rg.X, cl, rg})
 		})
-		return
+		return fs
 	}
-	if a, o, s := scan(h); s != nil {
-		out = append(out, memberTest{site: s, alphaV: a, overV: o})
-	}
-	// all tests in h itself (there may be one per type)
-	out = out[:0]
+	// tests inside same-package helpers called from h. A helper that holds several tests, or reaches
+	// its test only under a condition of its own, is a validator for several types at once: which
+	// alphabet applies to which type is then decided inside it, and every test is handed on so that the
+	// caller sees "more than one test" and does not attribute an alphabet to a type.
 	eachInstr(h, func(i ssa.Instruction) {
 		cl, ok := i.(*ssa.Call)
 		if !ok {
 			return
 		}
 		g := cl.Call.StaticCallee()
-		if g != nil && g != h && pkgOf(g) == pkgOf(h) && g.Blocks != nil {
-			if a, o, s := scan(g); s != nil {
-				mt := memberTest{site: cl}
-				if p, ok := a.(*ssa.Parameter); ok {
-					for k, gp := range g.Params {
-						if gp == p && k < len(cl.Call.Args) {
-							mt.alphaV = cl.Call.Args[k]
-						}
-					}
-				} else {
-					mt.alphaV = a
-					if cst, ok := a.(*ssa.Const); ok {
-						_ = cst
+		if g == nil || g == h || pkgOf(g) != pkgOf(h) || g.Blocks == nil {
+			return
+		}
+		fs := scan(g)
+		for _, fd := range fs {
+			mt := memberTest{site: cl}
+			if p, ok := fd.alpha.(*ssa.Parameter); ok {
+				for k, gp := range g.Params {
+					if gp == p && k < len(cl.Call.Args) {
+						mt.alphaV = cl.Call.Args[k]
 					}
 				}
-				if p, ok := o.(*ssa.Parameter); ok {
-					for k, gp := range g.Params {
-						if gp == p && k < len(cl.Call.Args) {
-							mt.overV = cl.Call.Args[k]
-						}
+			} else {
+				mt.alphaV = fd.alpha
+			}
+			if p, ok := fd.over.(*ssa.Parameter); ok {
+				for k, gp := range g.Params {
+					if gp == p && k < len(cl.Call.Args) {
+						mt.overV = cl.Call.Args[k]
 					}
 				}
-				if mt.overV != nil {
-					out = append(out, mt)
-				}
+			}
+			if pc := pathCond(newTB(g), g.Blocks[0], fd.rng.Block()); pc.Op != "true" {
+				mt.conditional = true
+			}
+			if mt.overV != nil {
+				out = append(out, mt)
+			} else if len(fs) > 1 {
+				out = append(out, memberTest{site: cl, conditional: true, overV: fd.over})
 			}
 		}
 	})
